@@ -234,6 +234,20 @@ def corpus(v, level):
         b.add_segment('PID').pid_5 = 'x+y#z'
         return m.to_er7(), sorted(m.encoding_chars), b.to_er7(), sorted(b.encoding_chars), m.to_mllp()[-12:]
     add('Message:four-encoding-characters', own_truncation)
+
+    def z_fields():
+        # locally defined fields typed with base datatypes that exist in some versions only: validated in their own version
+        zs = core.Segment('ZPD', version=v, validation_level=level)
+        out = []
+        for dt, val in (('TN', '5551234'), ('DTM', '202001011200'), ('GTS', 'x'), ('SNM', '12'), ('TS', '2020'), ('ST', 'x'),
+                        ('NM', '1')):
+            if dt in tables.base_datatypes(v):
+                f = core.Field('ZPD_%d' % (len(out) + 1), datatype=dt, version=v, validation_level=level)
+                f.value = val
+                zs.add(f)
+                out.append(dt)
+        return zs.to_er7(ec), out, report(zs)
+    add('Segment:z-fields-with-version-specific-datatypes', z_fields)
     add('Group', lambda: (lambda g: (g.add_segment('PID'), g.to_er7(ec))[-1])(
         core.Group('ADT_A01_INSURANCE' if 'ADT_A01_INSURANCE' in tables.lib(v).GROUPS else None, version=v,
                    validation_level=level)))
